@@ -23,7 +23,9 @@ TDurDec == /\ IsEvent("DurDec")
 \* C15 encode side: exact (rounded down to the resolution) or refused - never a different value
 TDurEnc == /\ IsEvent("DurEnc")
            /\ LET d == [ms |-> E.ms, ns |-> E.ns]  u == Units(d, E.scale) IN
-              IF FitsW(u, E.w) THEN E.res = "ok" /\ E.v = <<u[1], u[2]>>
+              \* huge: 2^64 ms and more (E.ms then holds the low 64 bits only): far beyond every field, whatever the low bits say
+              IF E.huge THEN E.res = "err"
+              ELSE IF FitsW(u, E.w) THEN E.res = "ok" /\ E.v = <<u[1], u[2]>>
               ELSE E.res = "err"
 \* race length byte -> value -> byte; bytes above 238 are undefined in InSim: practice is the documented fallback
 TLapsDec == /\ IsEvent("LapsDec")
